@@ -642,6 +642,7 @@ def covered_dict(a, msg):
 
 
 ORACLES = [
+    Oracle("conversion-family", lambda rng, tier: gen_convert_family(rng, tier), lambda a: check_convert_family(a), from_ops=("c10.convert_family",)),
     Oracle("dict-documents-and-sequences", lambda rng, tier: gen_dict_seq(rng, tier), lambda a: check_dict_seq(a), from_ops=("c10.dict_seq",)),
     Oracle("shared-metadata", lambda rng, tier: gen_metastate(rng, tier), lambda a: check_metastate(a), from_ops=("bind.metastate",)),
     Oracle("unknown-content-in-documents", gen_oracle_inject, check_injection, covered=covered_injection,
@@ -690,7 +691,7 @@ def dict_injections(rng, positions):
 
 
 def gen_dict_seq(rng, tier):
-    cap = n_cases(tier, 160, 400)
+    cap = n_cases(tier, 120, 400)
     n = 0
     for u, desc, docs in dict_documents(rng, tier):
         (dA, pA), (dB, pB) = docs
@@ -802,7 +803,7 @@ XML_ROUTES = ("native", "lxml")
 
 def gen_xml_e2e(rng, tier):
     n_uni = n_cases(tier, 3, 10)
-    per_doc = n_cases(tier, 30, 80)
+    per_doc = n_cases(tier, 24, 80)
     for feats in FEATURE_SETS:
         for _ in range(n_uni):
             u, desc, ctx = new_universe(rng, feats)
@@ -840,7 +841,7 @@ def gen_metastate(rng, tier):
         n += 1
         if inj["kind"] not in ("element", "known-copy") and n % 5:
             continue
-        if n % 3 and tier == "quick":
+        if n % 4 and tier == "quick":
             continue
         if n % 2 and tier != "quick":
             continue
@@ -929,7 +930,47 @@ CORR_PARSE_U = Corr("bind.parse_u", lambda rng, tier: (a for a in gen_union_xml(
                     describe="NodeParser(EventsHandler) vs parseRootU (Bind/Union.lean) on the union universes of C10 with every injection kind, "
                              "8 configs: the rebinding of C10-union-strict-attr-rebinds and the strict conversions of the trials included")
 
+# ---- conversion failures over the whole converter family (bytes base16/base64, float, Decimal, xml date/time types,
+# enums, ...: types and formats the binding-layer universes do not have), ASCII and non-ASCII garbage, every kind of
+# position, five entry points: the statement itself — kept as given + exactly one ConverterWarning, or ParserError
+def gen_convert_family(rng, tier):
+    n = 0
+    for key, (tp, extra, good, bads) in L._conv_types().items():
+        for pos in L.CONV_POSITIONS:
+            for bad in bads:
+                routes = L.CONV_ROUTES if tier != "quick" else [L.CONV_ROUTES[n % 5]]
+                for route in routes:
+                    n += 1
+                    other = L.CFG8[n % 8]
+                    for strict in (False, True):
+                        yield {"key": key, "pos": pos, "bad": bad, "route": route,
+                               "config": {**other, "fail_on_converter_warnings": strict}}
+
+
+def impl_convert_family(a):
+    return L.conv_parse(a["key"], a["pos"], a["bad"], a["config"], a["route"])
+
+
+def spec_convert_family(a):
+    if a["config"]["fail_on_converter_warnings"]:
+        return {"err": "ParserError"}
+    good = L._conv_types()[a["key"]][2]
+    return {"ok": {"at": f"{good} {a['bad']}" if a["pos"] == "k" else a["bad"], "warnings": 1, "rest_ok": True}}
+
+
+def check_convert_family(a):
+    got, want = impl_convert_family(a), spec_convert_family(a)
+    if got != want:
+        return (f"[{a['route']}, cfg={L.cfg_key(a['config'])}] {a['key']} value {a['bad']!r} at position {a['pos']}: expected "
+                f"{'ParserError' if 'err' in want else 'the value kept as given with exactly one ConverterWarning'}, observed {_short(got)}")
+    return None
+
+
 CORRS += [
+    Corr("c10.convert_family", gen_convert_family, impl_convert_family, spec=spec_convert_family,
+         classify=lambda a, o: f"{a['key']}:{a['pos']}:{a['route']}:{'strict' if a['config']['fail_on_converter_warnings'] else 'lenient'}:" + ("ok" if "ok" in o else o.get("err", "?")),
+         describe="spec-level: unconvertible values (ASCII and non-ASCII) for 13 value types / formats at attribute, element, list item, token and "
+                  "simple-content positions through XmlParser (3 handlers), DictDecoder and JsonParser: kept as given + one ConverterWarning / ParserError"),
     Corr("bind.matchns", gen_matchns, lambda a: L.real_match_namespace(a["namespaces"], a["qname"]),
          describe="XmlVar._match_namespace vs matchNamespace, bounded-exhaustive over namespace lists (empty, ##local, ##any, names, !names) "
                   "x qualified / unqualified names"),
